@@ -39,7 +39,7 @@ MANIFEST = {
 EXPLANATION = MANIFEST["level_text"]
 TRUSTED = [
     "pyvc VC generator, regex translation, single-character str.split model (models.split_single_char), utf8 model",
-    "z3 5.1.0 / cvc5 1.0.3",
+    "z3 5.1.0 / cvc5 1.4.0",
     "hmac.new(...).digest() is a function of (key, message); hmac.compare_digest(a, b) <=> a == b; base64.urlsafe_b64decode is a total function on 43 base64url characters + '=' returning 32 bytes",
 ]
 ASSUMPTIONS = [
